@@ -49,8 +49,8 @@ def run(chk, replay=None):
     chk.note_tlc(r1); chk.note_tlc(r2)
     # 2. recorded executions per schedule class
     rp = vcheck.Replayer(binary, seed=chk.seed, jobs=1, chunk=1, timeout_per_line=300)
-    K, N = (16, 100) if chk.thorough else (8, 60)
-    rounds = 6 if chk.thorough else 1
+    K, N = (16, 400) if chk.thorough else (8, 60)
+    rounds = 4 if chk.thorough else 1
     classes = [('same_second', K, N), ('restart', 6, 30), ('shared_file', 4, 30)] + ([('staggered', 3, 30)] if chk.thorough else [])
     tdir = '%s/work/ids-%d' % (vcheck.BUILD, os.getpid())
     os.makedirs(tdir, exist_ok=True)
